@@ -24,6 +24,8 @@ def families(run, rng, quick):
     out.append(("keys", take(cs), "Trace_Keys", "Trace_Keys.cfg", {"SUPPRESS": "0"}))
     oracle = plural_oracle(run, ["en", "fr", "ru", "ar", "pl", "ja", "cy", "ga", "lv", "he", "de"], ["0", "1", "2", "3", "5", "11", "21", "100", "1000000", "1.5"])
     cs, _ = loadfam.gen_cases(run, "MC_FkFamilies", "MC_FkFamilies.cfg", workers=1)
+    if quick:
+        cs = [c for c in cs if c["family"] != "fk-arm-shapes"]       # one very large project: thorough tier only
     out.append(("fk-families", cs, "Trace_Fk", "Trace_Fk.cfg", {"ORACLE": oracle}))
     cs, _ = loadfam.gen_cases(run, "MC_Fk", "MC_Fk_quick.cfg")
     out.append(("fk-graphs", take(cs), "Trace_Fk", "Trace_Fk.cfg", {"ORACLE": oracle}))
@@ -61,8 +63,33 @@ def check(run):
     nperm = 1 if quick else 5
     plan = [("json", None)] + [("json", rng.randrange(1 << 30)) for _ in range(nperm)] \
         + [("yaml", rng.randrange(1 << 30)) for _ in range(nperm)] + [("json5", rng.randrange(1 << 30)) for _ in range(nperm)]
+    # every driver binary is built before the families fan out (cargo must not run concurrently on one target directory)
+    for fmt in ("json", "yaml", "json5"):
+        vp.cargo_build("drv_parser", (fmt, "quote"), variant=fmt + "-quote")
+    vp.cargo_build("drv_codegen")
+    import concurrent.futures
+    main_run = run
+    subs = [main_run.sub() for _ in fams]
+    with concurrent.futures.ThreadPoolExecutor(max_workers=4) as pool:
+        futs = [pool.submit(_family, sub, fam, plan) for sub, fam in zip(subs, fams)]
+        totals = [f.result() for f in futs]
+    for sub in subs:
+        main_run.merge(sub)
+    total = sum(totals)
+    run.samples = [{"family": f[0], "cases": len(f[1])} for f in fams]
+    run.notes["format_perm_plan"] = [[f, "identity" if s is None else "seeded permutation"] for f, s in plan]
+    run.assumptions = ["every family is validated against the specification in every (format, key-order permutation) variant, so all variants denote the spec's outcome",
+                       "repeated runs: one variant per family is executed twice in fresh processes and the two traces must be identical event by event",
+                       "generated code: the real code generator (leptos_i18n_macro modules included by path) is run in-process twice and on a key-order permutation for 4 families; the token text must be identical"]
+    return run.finish("samples of the C01/C03/C04/C05/C06/C07 case families x {json, yaml, json5} x key-order permutations x 2 runs; "
+                      "non-trivial: every replayed project variant", {"distinct_nontrivial": total})
+
+
+def _family(run, fam, plan):
+    """all variants of one family (runs in a worker thread on its own accumulator)"""
+    name, cases, tmod, tcfg, tenv = fam
     total = 0
-    for name, cases, tmod, tcfg, tenv in fams:
+    if True:
         for n, (fmt, seed) in enumerate(plan):
             tag = "_%s_%s_%d" % (name, fmt, n)
             loadfam.replay_load(run, cases, tmod, tcfg, build_features=(fmt, "quote"), variant=fmt + "-quote", fmt=fmt,
@@ -99,13 +126,7 @@ def check(run):
                 for r in rejects:
                     run.violation("%s;codegen-differs-across-%s;%s" % (name, what, r["case"]), "generated token text differs across %s at event %s" % (what, r["l"]),
                                   {"family": name, "dir": wd, "line": r["l"]})
-    run.samples = [{"family": f[0], "cases": len(f[1])} for f in fams]
-    run.notes["format_perm_plan"] = [[f, "identity" if s is None else "seeded permutation"] for f, s in plan]
-    run.assumptions = ["every family is validated against the specification in every (format, key-order permutation) variant, so all variants denote the spec's outcome",
-                       "repeated runs: one variant per family is executed twice in fresh processes and the two traces must be identical event by event",
-                       "generated code: the real code generator (leptos_i18n_macro modules included by path) is run in-process twice and on a key-order permutation for 4 families; the token text must be identical"]
-    return run.finish("samples of the C01/C03/C04/C05/C06/C07 case families x {json, yaml, json5} x key-order permutations x 2 runs; "
-                      "non-trivial: every replayed project variant", {"distinct_nontrivial": total})
+    return total
 
 
 def replay(run, path):
